@@ -133,6 +133,10 @@ def run(chk):
                         "void direct() { asm(\"%s\", %d); asm(\"%s\", %d); }\n"
                         "void main() { X = 1; big(); mixed(); if (X) { big(); } outer(); direct(); asm(\"%s\", %d); Y = 2; }\n"
                         % (t1, n1, t2, n2, t1, n1, t2, n2, t2, n2), ()))
+    # an asm block whose first line is an assembler comment, code behind it
+    sources.append(("unsigned char c;\nvoid direct() { asm(\"; wait\\n\\tNOP\\n\\tNOP\", 2); X = 1; }\n"
+                    "inline void slide() { asm(\"; four\\n\\tNOP\\n\\tNOP\\n\\tNOP\\n\\tNOP\", 4); }\n"
+                    "void main() { direct(); if (c) { slide(); slide(); } asm(\";only a comment\", 0); asm(\" ; indented comment\\n\\tINX\", 1); }\n", ()))
     # recorded findings: their exemplars are measured like every other program (signature = the finding's)
     known_src = {k["exemplar"]: k["signature"] for k in chk.known if k.get("exemplar")}
     sources += [(e, ()) for e in known_src]
